@@ -382,8 +382,18 @@ def shrink_case(pid, mod, case, rundir, failing):
     if cand_fn is None:
         return case
     cur = case
+    t_end = time.time() + float(os.environ.get("VERIF_SHRINK_BUDGET_S", "90"))
     for _round in range(40):
-        cands = [c for c in cand_fn(cur) if c != cur][:400]
+        if time.time() > t_end:
+            break
+        cands, total = [], 0
+        for c in cand_fn(cur):
+            if c == cur:
+                continue
+            cands.append(c)
+            total += len(c)
+            if len(cands) >= 400 or total > 600000:
+                break
         if not cands:
             break
         res = run_both(pid, mod, cands, rundir, tag="shrink")
